@@ -123,6 +123,9 @@ impl FunctionCall {
 
     /// Removes the type instantiation from the method, if any, and returns true if it was present.
     pub fn remove_type_instantiation_from_method(&mut self) -> bool {
+        if let Some(tokens) = &mut self.tokens {
+            tokens.type_instantiation_tokens = None;
+        }
         self.method
             .as_mut()
             .and_then(|method| method.types.take())
